@@ -22,11 +22,11 @@ SPEC = dict(
     design_ref="DESIGN.md section 6, C07",
     props_file="theories/props/C07.v",
     coq_deps=["theories/corr/DecodersCorr.vo"],
-    theorems=["C07_decoders_roundtrip", "C07_iceberg_roundtrip", "C07_sql_roundtrip", "C07_segment_layout", "C07_index_entries", "C07_pitr_scan_roundtrip", "C07_skeleton_returns_nothing", "C07_sql_unpatched_refuted", "C07_nonvacuous"],
+    theorems=["C07_decoders_roundtrip", "C07_iceberg_roundtrip", "C07_sql_roundtrip", "C07_segment_layout", "C07_index_entries", "C07_pitr_scan_roundtrip", "C07_pitr_scan_contract", "C07_pitr_contract_nonvacuous", "C07_skeleton_returns_nothing", "C07_sql_unpatched_refuted", "C07_nonvacuous"],
     harnesses=_harnesses("C07"),
     technique="Coq proof (varint/zig-zag round trips over Z with explicit mod 2^64, induction over records/headers/batches) for all well-formed batches + vm_compute correspondence of the model with the real BuildSegment, the three processors' decoders and the PITR scanner on kmsg-encoded generated batches + implementation-side oracle",
     level_text="Machine-checked Coq theorems for ALL lists of well-formed uncompressed record batches (any record count >= 1, null/empty/any keys and values, any headers incl. null values, any int64 timestamp delta incl. negative, any CRC function): the model of BuildSegment succeeds and lays out header|batches|footer(crc(body), last offset); the Iceberg and the (patched) SQL decoder applied to that segment return exactly the records sent (offset, timestamp, key, value, headers); the PITR scanRecord loop returns every record's (timestampDelta, offsetDelta); the skeleton decoder returns [] and never fails (placeholder, DESIGN 9.2). The unpatched SQL decoder is refuted by vm_compute (30-day delta -> wrong timestamp, 2^30 -> wrong sign, 2^34 -> varint too long). Model, spec encoder and code are tied by running the real BuildSegment/ParseIndex/collectRecoverableBatches/scanRecord and the three processors' real decoders on franz-go-kmsg-encoded generated batches and comparing segment bytes, index bytes, decoded records and PITR outputs with the model by vm_compute; the implementation-side oracle compares the decoded records with the produced ones field by field and checks the segment/index layout clauses on the real artifacts.",
-    level_note="Trusted: Coq kernel + vm_compute; the hand model; the Go harness. The spec encoder lib/Kafka.v is compared byte-for-byte with franz-go kmsg on every generated batch (CSpec cases). Index clause proven for all batch lists/intervals (C07_index_entries).",
+    level_note="Trusted: Coq kernel + vm_compute; the hand model; the Go harness. The spec encoder lib/Kafka.v is compared byte-for-byte with franz-go kmsg on every generated batch (CSpec cases). Index clause proven for all batch lists/intervals (C07_index_entries). Restore-scanner contract proven for every segment of header-consistent batches and every cut-off (C07_pitr_scan_contract, proofs/DecodersPitr.v): recovered records = records in scan order before the first one with timestamp > cutoff; whole batches byte-identical; a cut batch is exactly the spec encoding of the batch restricted to its kept prefix (batchLength, lastOffsetDelta, maxTimestamp, numRecords, CRC consistent).",
     trusted_base=["model/Decoders.v (hand model of BuildSegment, IndexBuilder, the decoders, the PITR scanner)", "lib/Kafka.v (spec encoder of record batches v2, checked against franz-go kmsg by the correspondence run)", "lib/Varint.v"],
     assumptions=["CRC-32C is an abstract function (Section variable): no decoder verifies it, the writer stores crc(body)",
                  "well-formed batches: uncompressed, >= 1 record, int64 timestamp deltas, int32 offset deltas/lengths, firstTimestamp+delta and baseOffset+delta within int64, batch < 2^31 bytes",
